@@ -46,6 +46,8 @@ type caseResult struct {
 	post       func(i int, model string) string
 	changes    int // successful state-changing ops
 	violations []hx.Violation
+	// the environment interfered (a host port taken by somebody else): the case says nothing, it is re-run
+	inconclusive bool
 }
 
 func (c *ctx) finish(kind string, name string, res *caseResult) {
@@ -121,10 +123,25 @@ func (c *ctx) runOps(name string, ops []string) {
 		c.finish("pm", name, execPM(c, ops))
 	case "m6":
 		c.finish("m6", name, execM6(c, ops))
-	case "sk":
-		c.finish("sk", name, execSK(c, ops))
-	case "srv":
-		c.finish("srv", name, execSRV(c, ops))
+	case "sk", "srv":
+		// cases with real sockets: re-run with fresh ports when the environment interfered; never a verdict then
+		for attempt := 0; ; attempt++ {
+			var res *caseResult
+			if f[1] == "sk" {
+				res = execSK(c, ops)
+			} else {
+				res = execSRV(c, ops)
+			}
+			if !res.inconclusive {
+				c.finish(f[1], name, res)
+				break
+			}
+			c.r.Hit("inconclusive:port-in-use-by-environment")
+			if attempt == 2 {
+				c.r.Hit("inconclusive:case-given-up")
+				break
+			}
+		}
 	case "kernel":
 		if c.netns != "private" || !nf.HaveRealIptables() {
 			c.r.Hit("kernel:skipped")
